@@ -173,7 +173,7 @@ def boundary_probes(world, params, formulas, probes, action_name, limit=60):
                 root = v0 - d0 / (d1 - d0)
                 if abs(root) > 10 ** 6 or root.denominator.bit_length() > 200:
                     continue
-                for rel in (Fraction(1, 100), Fraction(-1, 100), Fraction(1, 2), Fraction(-1, 2)):
+                for rel in (Fraction(0), Fraction(1, 100), Fraction(-1, 100), Fraction(1, 2), Fraction(-1, 2)):
                     v = root + rel * max(1, abs(root))
                     out.append({"action": action_name, "args": pr["args"], "state": jstate((st[0], {**st[1], k: v}))})
                     if len(out) >= limit:
@@ -281,7 +281,9 @@ def type_closure(types):
     return out
 
 
-def vocab_diffs(dom, domain):
+def vocab_diffs(dom, domain, ordered=True):
+    """ordered: the declarations also come in the source's order (parsing keeps it; an exporter may regroup, e.g.
+    constants by type, so round trips compare without order)."""
     ok, got = lib_call(extract.x_vocab, domain)
     if not ok:
         return [("extract", repr(got))]
@@ -290,7 +292,7 @@ def vocab_diffs(dom, domain):
     if type_closure(exp["types"]) != type_closure(got["types"]):
         out.append(("types", {"expected": exp["types"], "got": got["types"]}))
     for k in ("constants", "predicates", "functions", "actions"):
-        if exp[k] != got[k] or list(exp[k]) != list(got[k]):
+        if exp[k] != got[k] or (ordered and list(exp[k]) != list(got[k])):
             out.append((k, {"expected": exp[k], "got": got[k]}))
     if getattr(domain, "name", None) != dom["name"]:
         out.append(("name", {"expected": dom["name"], "got": getattr(domain, "name", None)}))
@@ -460,7 +462,7 @@ OUTSIDE = ["single-literal-pre", "top-not-pre", "single-numeric-pre", "imply", "
            "wrong-arity-atom-extra", "wrong-arity-fterm-less", "wrong-arity-fterm-extra", "not-and",
            "forall-two-vars", "nested-when", "forall-eff-no-when", "forall-eff-single", "number-first-eq",
            "const-comparison", "undeclared-function", "undeclared-type", "undeclared-term", "top-or",
-           "top-or-single", "when-cond-imply", "empty-effect", "effect-single-literal"]
+           "top-or-single", "when-cond-imply", "empty-effect", "effect-single-literal", "not-comparison"]
 
 
 def inject(ch, dom, tag):
@@ -592,6 +594,12 @@ def inject(ch, dom, tag):
         e1, e2 = g.simple_eff(sc2), g.simple_eff(sc2)
         if not e1 or not e2: return None
         ops.append(["eff-add", ["forall", ["?z", "-", qt], ["and", e1, e2] if tag == "forall-eff-no-when" else e1]])
+    elif tag == "not-comparison":
+        # a negated numeric comparison (legal with :negative-preconditions): its complement differs from the
+        # mirrored comparison exactly where both sides are equal, so the constant is one the states hold
+        if not ft: return None
+        c = [ch.choice([">", "<", ">=", "<="]), ft, ch.choice(["1", "2", "0", "5", "-1"])]
+        ops.append(["pre-add", ["not", c]] if ch.flag(0.6) else ["eff-add", ["when", ["not", c], atom or ["not", c]]])
     elif tag == "number-first-eq":
         if not ft: return None
         ops.append(["pre-add", ["=", "0.5", ft]])
